@@ -280,6 +280,32 @@ def check_alias(ra, kind, r, t, u, bad):
   return 2
 
 
+def check_alias_nested(ra, wrap, r, t, u, bad):
+  """as check_alias, but the shared reference holds a list / a record (a shared subtree reached along two sibling paths when the type is read back)"""
+  R = ra.TypeReference
+  def W(x):
+    return ('list', x) if wrap == 'list' else ('open', (('k', x),))
+  n = 0
+  for order in (0, 1):
+    shared = mk(ra, W(r))
+    x = R(ra.OpenRecord({'p': shared, 'q': shared})); y = R(ra.OpenRecord({'p': mk(ra, W(t)), 'q': mk(ra, W(u))}))
+    try:
+      ra.Unify(x, y) if order == 0 else ra.Unify(y, x)
+    except Exception as e:
+      bad.append(dict(sig='exception_alias:' + type(e).__name__, what='nested alias %r' % ((wrap, r, t, u),), case=dict(kind='alias-nested', w=wrap, r=r, t=t, u=u))); continue
+    m = meet(r, t); m = None if m is None else meet(m, u)
+    if wrap == 'list' and m is not None and any(is_list(z) for z in (r, t, u)): m = None
+    ox, oy = obs(ra, x), obs(ra, y); n += 1
+    if m is None:
+      if ox not in ('CLASH', 'NESTED-CLASH') and oy not in ('CLASH', 'NESTED-CLASH'):
+        bad.append(dict(sig='missed_clash_alias', what='nested alias %r got %r %r' % ((wrap, r, t, u), ox, oy), case=dict(kind='alias-nested', w=wrap, r=r, t=t, u=u)))
+    else:
+      exp = ('open', (('p', canon(W(m))), ('q', canon(W(m)))))
+      if ox != exp or oy != exp:
+        bad.append(dict(sig='wrong_meet_alias', what='nested alias %r got %r %r expected %r' % ((wrap, r, t, u), ox, oy, exp), case=dict(kind='alias-nested', w=wrap, r=r, t=t, u=u)))
+  return n
+
+
 # ---- operation sequences on a pool of three references (the API the type checker drives: Unify, UnifyRecordField, UnifyListElement, CloseRecord)
 OPS_INIT = ['Any', 'Num', 'Str', ('open', ()), ('open', (('a', 'Num'),)), ('open', (('a', 'Any'), (0, 'Str'))), ('closed', (('a', 'Num'),)), ('list', 'Any'), ('open', (('col10', 'Num'), (10, 'Str')))]
 OPS_FIELDS = ['a', 'b', 0, 10, 'col10']
@@ -464,7 +490,13 @@ def work(task):
         for t in ATOMS:
           for u in ATOMS:
             n += check_alias(ra, k, r, t, u, bad)
-    samples.append(dict(alias='x={a:R,b:R} (one shared reference R=Any) unified with {a:Num,b:Any}'))
+    scalars = [a for a in ATOMS]
+    for w in ('list', 'rec'):
+      for r in scalars:
+        for t in scalars:
+          for u in scalars:
+            n += check_alias_nested(ra, w, r, t, u, bad)
+    samples.append(dict(alias='x={a:R,b:R} (one shared reference R=Any) unified with {a:Num,b:Any}; also R = a list / a record shared by two fields'))
     stats = dict(alias_cases=n, unify_calls=n, comparisons=n)
   # keep the violation list small: one witness per signature per shard + count
   out = {}
